@@ -161,12 +161,27 @@ Fixpoint move_back_loop (dir : path) (names : list string) : prog (outcome unit)
       end
   end.
 
-(** prune: (remaining estimate, number evicted).  The listing stays open while
-    the plan is applied (each planned entry keeps its DirEntry). *)
+(** prune: (remaining estimate, number evicted).  The listing is closed before
+    the plan is applied: apply_update keeps only the file names and drops the
+    DirEntry values first (repair of finding F5). *)
 Definition prune (dir : path) (cap : N) : prog (outcome (N * N)) :=
   try (collect_cached_files dir) (fun '(dh, files, count) =>
   match plan (entries_of files) cap with
   | None => quiet (CCloseDir dh) ;;; Ret Panic                       (* the assert! *)
+  | Some (ev, mb) =>
+      let nev := N.of_nat (List.length ev) in
+      quiet (CCloseDir dh) ;;;
+      r <- (try (evict_loop dir (map (name_at files) ev)) (fun _ =>
+            move_back_loop dir (map (name_at files) mb))) ;;
+      Ret (match r with Ok _ => Ok ((count - nev)%N, nev) | Err e => Err e | Panic => Panic end)
+  end).
+
+(** The same as shipped before the repair (kept for the record of finding F5):
+    the listing stays open while the plan is applied. *)
+Definition prune_pinned (dir : path) (cap : N) : prog (outcome (N * N)) :=
+  try (collect_cached_files dir) (fun '(dh, files, count) =>
+  match plan (entries_of files) cap with
+  | None => quiet (CCloseDir dh) ;;; Ret Panic
   | Some (ev, mb) =>
       let nev := N.of_nat (List.length ev) in
       match ev, mb with
